@@ -260,7 +260,11 @@ def _class_menu():
     m["FunctionGShifted"] = (lambda d: (F.FunctionGShifted(d), [[0.3, 0.8]] * d, None, 1), "unit")
     m["FunctionDiagonalDiscont"] = (lambda d: (F.FunctionDiagonalDiscont(), None, None, 1), "unit")
     m["FunctionUQ"] = (lambda d: (F.FunctionUQ(), [[], [0.0], []], None, 1) if d == 3 else None, "uq")
+    m["FunctionUQShifted"] = (lambda d: (F.FunctionUQShifted(), [[], [-0.221413], []], None, 1) if d == 3 else None, "uq")
     m["FunctionUQ2"] = (lambda d: (F.FunctionUQ2(), [[], [0.0]], None, 1) if d == 2 else None, "uq")
+    # classes without an integral of their own: the base class integrates numerically (dblquad / tplquad) - asymmetric integrand
+    m["CustomFunction_base_class_integral"] = (lambda d: (F.CustomFunction(lambda x: x[0] + 2.0 * x[1] ** 2 + x[0] * x[1] + (x[2] ** 3 - x[0] * x[2] if len(x) > 2 else 0.0)),
+                                                           [[]] * d, None, 1) if d >= 2 else None, "uq")
     return m
 
 
